@@ -220,7 +220,7 @@ def run(chk, prog):
         chk.analysed(function=m["full"])
         gm = g if m is fn else C.CFG(m)
         n_u1 += check_U1(chk, m, gm)
-    chk.floor("U1", n_u1, 3)
+    chk.floor("U1", n_u1, 2)
 
     # ---- locate the open, the renames, the conditions -----------------------
     opens = []
@@ -321,12 +321,30 @@ def run(chk, prog):
                         if d["id"] == tgt["id"] and d.get("init"):
                             lits = [y["v"] for y in C.walk(d["init"]) if y.get("k") == "Str"]
                             lit = "".join(lits)
+                            # a name built by a helper name(k): literal pieces of the helper with k = the argument
+                            for y in C.walk(d["init"]):
+                                if y.get("k") == "Call" and (y.get("fn") or "").startswith("RestartManager::") and \
+                                        len(y.get("a", [])) == 1 and C.const_int(y["a"][0]) is not None:
+                                    for hm in u.methods_of("RestartManager"):
+                                        if hm["full"].split("(")[0] == y["fn"] and hm.get("body") and len(hm["params"]) == 1:
+                                            pk = hm["params"][0]["id"]
+                                            nodes = []
+                                            seen_ids = set()
+                                            for s3 in C.walk_stmt(hm["body"]):
+                                                if s3.get("k") in ("Str", "Ref") and id(s3) not in seen_ids and \
+                                                        s3.get("l") is not None:
+                                                    seen_ids.add(id(s3))
+                                                    nodes.append(s3)
+                                            nodes.sort(key=lambda z: (z.get("l", 0), z.get("c", 0)))
+                                            lit = "".join(z["v"] if z.get("k") == "Str" else
+                                                          (str(C.const_int(y["a"][0])) if z.get("id") == pk else "")
+                                                          for z in nodes)
         chk.require(lit is not None and ".0." in lit, "U2", "rename target is backup 0", where(x, fn),
                     "target of the dump rename is %r, expected the index-0 backup name" % lit,
                     function=fn["qname"], construct="dump rename target")
 
     # ---- U3: shift loop ----------------------------------------------------
-    loops = [s for s in C.walk_stmt(fn["body"]) if s.get("k") == "For"]
+    loops = [s for s in C.walk_stmt(fn["body"]) if s.get("k") in ("For", "While")]
     shift_loops = []
     for lp in loops:
         inner = [x for x in C.walk_stmt(lp["body"]) if C.is_call(x) and x.get("fn") in ("rename", "std::rename")]
@@ -335,64 +353,125 @@ def run(chk, prog):
     if len(shift_loops) != 1 or len(shift_loops[0][1]) != 1:
         raise AnalysisBroken("expected one backup-shift loop with one rename in get_restart_writer")
     lp, (rn,) = shift_loops[0]
-    ivar = lp["init"]["d"][0] if lp.get("init") and lp["init"].get("k") == "Decl" else None
+    cnd = C.strip_casts(lp["c"]) if lp.get("c") else None
+    ivar = None
+    if lp.get("k") == "For" and lp.get("init") and lp["init"].get("k") == "Decl":
+        ivar = lp["init"]["d"][0]
+    elif cnd is not None and cnd.get("k") == "Bin" and C.strip_casts(cnd["a"]).get("k") == "Ref":
+        vid = C.strip_casts(cnd["a"]).get("id")
+        for s2 in C.walk_stmt(fn["body"]):
+            if s2.get("k") == "Decl":
+                for d in s2["d"]:
+                    if d["id"] == vid and d.get("init") is not None:
+                        ivar = d
     if ivar is None:
-        raise AnalysisBroken("shift loop has no induction variable declaration")
+        raise AnalysisBroken("shift loop has no induction variable with an initial value")
     conv = Converter(integer=True)
     env = Env()
     isym = S("i", integer=True)
     env.vals[("l", ivar["id"])] = isym
 
-    def streamed_index(local):
-        """The integer expression streamed into the stringstream `local` inside the loop body."""
-        vals = []
-        for x in C.walk_stmt(lp["body"]):
+    # helper functions that build a backup name from an index: name(k) streams k between "restart." and ".back"
+    name_helpers = {}
+    for m in u.methods_of("RestartManager"):
+        if not m.get("body") or len(m["params"]) != 1 or "string" not in (m.get("ret") or m.get("t") or "string"):
+            continue
+        pk = m["params"][0]["id"]
+        streamed = [x for s2 in C.walk_stmt(m["body"]) for x in
+                    (C.walk(s2) if s2.get("k") not in ("Block", "If", "For", "While", "Do", "Decl") else ())
+                    if x.get("k") == "Ref" and x.get("id") == pk]
+        strs = [x.get("v") for s2 in C.walk_stmt(m["body"]) for x in
+                (C.walk(s2) if s2.get("k") not in ("Block", "If", "For", "While", "Do", "Decl") else ()) if x.get("k") == "Str"]
+        if len({id(x) for x in streamed}) == 1 and any("restart." in (t or "") for t in strs) and any(".back" in (t or "") for t in strs):
+            name_helpers[m["full"].split("(")[0]] = m
+
+    names = {}          # string / stringstream local id -> set of index values it carries
+    renamed = []        # (src index set, dst index set, value of the induction variable at that point)
+
+    def index_of_name(e):
+        """Backup index carried by a file-name expression (a local, local.str().c_str(), or a helper call)."""
+        e = C.strip_casts(e)
+        while True:
+            if e.get("k") == "Call" and e.get("obj") is not None and e.get("n") in ("c_str", "str"):
+                e = C.strip_casts(e["obj"])
+                continue
+            if e.get("k") == "Ctor" and len(e.get("a", [])) == 1:
+                e = C.strip_casts(e["a"][0])
+                continue
+            break
+        if e.get("k") == "Call" and e.get("fn") in name_helpers and e["a"]:
+            return {sp.simplify(conv.conv(e["a"][0], env))}
+        if e.get("k") == "Ref" and e.get("id") in names:
+            return set(names[e["id"]])
+        return None
+
+    def visit_expr(e):
+        for x in C.walk(e):
             if C.is_call(x) and x.get("op") == "<<":
-                # leftmost operand of the chain
                 root = x
                 ops = []
                 while C.is_call(root) and root.get("op") == "<<":
                     args = ([root["obj"]] if root.get("obj") is not None else []) + root["a"]
                     ops.append(args[1])
                     root = C.strip_casts(args[0])
-                if root.get("k") == "Ref" and root.get("id") == local["id"]:
+                if root.get("k") == "Ref" and "id" in root:
                     for o in ops:
                         o = C.strip_casts(o)
                         t = o.get("t", "")
                         if o.get("k") not in ("Str",) and ("long" in t or "int" in t) and "char" not in t:
-                            vals.append(o)
-        return vals
+                            names.setdefault(root["id"], set()).add(sp.simplify(conv.conv(o, env)))
+        for x in C.walk(e):
+            if C.is_call(x) and x.get("fn") in ("rename", "std::rename"):
+                renamed.append((index_of_name(x["a"][0]), index_of_name(x["a"][1]), env.vals[("l", ivar["id"])]))
+        for x in C.walk(e):
+            if x.get("k") == "Un" and x["op"] in ("pre--", "post--", "pre++", "post++") and \
+                    (C.ref_key(x["x"]) or (None, None))[1] == ivar["id"]:
+                env.vals[("l", ivar["id"])] = env.vals[("l", ivar["id"])] + (1 if "++" in x["op"] else -1)
+            if x.get("k") == "Bin" and x["op"] in ("-=", "+=") and (C.ref_key(x["a"]) or (None, None))[1] == ivar["id"]:
+                d0 = conv.conv(x["b"], env)
+                env.vals[("l", ivar["id"])] = env.vals[("l", ivar["id"])] + (d0 if x["op"] == "+=" else -d0)
 
-    src_l, dst_l = _root_local(rn["a"][0]), _root_local(rn["a"][1])
-    srcs = streamed_index(src_l) if src_l else []
-    dsts = streamed_index(dst_l) if dst_l else []
-    # keep only maximal expressions (the chain walk visits sub-chains too)
-    def uniq(v):
-        seen = []
-        for o in v:
-            if not any(o is p for p in seen):
-                seen.append(o)
-        return seen
-    srcs, dsts = uniq(srcs), uniq(dsts)
-    if not srcs or not dsts:
-        raise AnalysisBroken("cannot extract the backup indices streamed into the shift file names")
-    se = {sp.simplify(conv.conv(o, env)) for o in srcs}
-    de = {sp.simplify(conv.conv(o, env)) for o in dsts}
+    def visit(st):
+        k = st.get("k")
+        if k == "Block":
+            if st.get("mac"):
+                return
+            for c2 in st.get("s", []):
+                visit(c2)
+        elif k == "Decl":
+            for d in st["d"]:
+                if d.get("init") is not None:
+                    idx = index_of_name(d["init"])
+                    visit_expr(d["init"])
+                    if idx is not None:
+                        names[d["id"]] = idx
+            return
+        elif k == "If":
+            visit_expr(st["c"])
+            # the arms of the rename test only abort / log
+        elif k in ("For", "While", "Do"):
+            raise AnalysisBroken("nested loop in the backup-shift loop")
+        else:
+            visit_expr(st)
+    visit(lp["body"])
+    if lp.get("k") == "For" and lp.get("inc") is not None:
+        visit_expr(lp["inc"])
+    if len(renamed) != 1 or renamed[0][0] is None or renamed[0][1] is None:
+        raise AnalysisBroken("cannot extract the backup indices of the shift file names")
+    se, de, _at = renamed[0]
     chk.require(se == {isym - 1} and de == {isym}, "U3", "shift renames backup i-1 to backup i",
                 where(rn, fn), "shift loop renames index %s to index %s" % (se, de),
                 function=fn["qname"], construct="shift rename indices")
-    inc = C.strip_casts(lp["inc"]) if lp.get("inc") else None
-    dec = inc is not None and ((inc.get("k") == "Un" and inc["op"] in ("pre--", "post--")) or
-                               (inc.get("k") == "Bin" and inc["op"] == "-=" and C.const_int(inc["b"]) == 1))
-    cnd = C.strip_casts(lp["c"]) if lp.get("c") else None
+    net = sp.simplify(env.vals[("l", ivar["id"])] - isym)
     cnd_ok = cnd is not None and cnd.get("k") == "Bin" and (
         (cnd["op"] in (">", "!=") and C.const_int(cnd["b"]) == 0) or
         (cnd["op"] == ">=" and C.const_int(cnd["b"]) == 1)) and \
         (C.ref_key(cnd["a"]) or (None, None))[1] == ivar["id"]
-    chk.require(bool(dec) and cnd_ok, "U3", "shift loop runs i = start ... 1, strictly decreasing",
-                where(lp, fn), "loop condition %s / increment %s do not describe a decreasing loop "
-                "ending at 1" % (C.pretty(lp.get("c")), C.pretty(lp.get("inc"))),
+    chk.require(net == -1 and cnd_ok, "U3", "shift loop runs i = start ... 1, strictly decreasing",
+                where(lp, fn), "loop condition %s / net change of the index per iteration %s do not describe a decreasing "
+                "loop ending at 1" % (C.pretty(lp.get("c")), net),
                 function=fn["qname"], construct="shift loop direction")
+    env.vals.pop(("l", ivar["id"]), None)
     mx = S("_maximum_number_of_backups", integer=True)
     nb = S("_number_of_backups", integer=True)
     start = conv.conv(ivar["init"], env)
